@@ -84,12 +84,15 @@ Definition new_notif (old : option notif) (r : rrdp) : notif :=
   mkNotif (r_session r) (r_serial r) (snap_path r, snap_data r)
           (map (dref_of (r_session r)) (to_write reused r) ++ rev reused).
 
+(** The files written before the switch, in order: the new deltas (newest first), the
+    snapshot, new-notification.xml. *)
+Definition planned (old : option notif) (r : rrdp) : list (path * fcontent) :=
+  map (fun d => (delta_path (r_session r) d, CData (delta_data (r_session r) d))) (to_write (reusable old r) r)
+  ++ [(snap_path r, CData (snap_data r)); (newnotif_path, CNotif (new_notif old r))].
+
 (** Everything up to and including the notification switch. *)
 Definition write_ops (old : option notif) (r : rrdp) : list fsop :=
-  flat_map (fun d => save_ops (delta_path (r_session r) d) (delta_data (r_session r) d)) (to_write (reusable old r) r)
-  ++ save_ops (snap_path r) (snap_data r)
-  ++ [OMkParents newnotif_path; OCreateFile newnotif_path; OWrite newnotif_path (CNotif (new_notif old r));
-      ORename newnotif_path notif_path true].
+  flat_map (fun pc => save_c (fst pc) (snd pc)) (planned old r) ++ [ORename newnotif_path notif_path true].
 
 (** 696-853. *)
 Definition lowest_delta (r : rrdp) : N := match last (map Some (r_deltas r)) None with Some d => d_serial d | None => 0 end.
@@ -152,12 +155,10 @@ Definition NotifWf (n : notif) : Prop :=
 
 (** The files about to be written do not collide with different content: each target is
     absent, empty (a crash between create and write) or already holds what is written. *)
-Definition slot_free (f : fs) (p : path) (c : fcontent) : Prop :=
-  fs_get p f = None \/ fs_file p f = Some CEmpty \/ fs_file p f = Some c.
+Definition slot_ok (f : fs) (p : path) (c : fcontent) : Prop :=
+  fs_file p f = None \/ fs_file p f = Some CEmpty \/ fs_file p f = Some c.
 Definition WritesSafe (f : fs) (old : option notif) (r : rrdp) : Prop :=
-  (forall d, In d (to_write (reusable old r) r) -> slot_free f (delta_path (r_session r) d) (CData (delta_data (r_session r) d)))
-  /\ slot_free f (snap_path r) (CData (snap_data r))
-  /\ slot_free f newnotif_path (CNotif (new_notif old r)).
+  forall p c, In (p, c) (planned old r) -> slot_ok f p c.
 
 (** The old notification is not ahead of the server state (it would be after a write with a
     stale [Arc<RepositoryContent>], candidate F11d). *)
